@@ -22,6 +22,45 @@ PROPS = {
         ],
         floor_quick=20000, floor_thorough=1000000,
     ),
+    "C02": P(
+        title="built messages serialise validly and round-trip",
+        level="exploration",
+        technique="property-based generation of construction programs over the public message API; round-trip + differential oracle against an independent encoder/decoder; metamorphic byte-order relation",
+        level_text=("Exploration: generated construction programs (all constructors, setters in generated order, bodies over generated signatures built with append_basic / append_fixed_array / "
+                    "open-close container / append_args) are marshalled and checked against an independent codec: validity, requested header and body, canonical body bytes, demarshal + iterator "
+                    "read-back, byte-identical re-marshal, big-endian twin read back to the same values and converted to the same native bytes, copy semantics. A coverage-guided sample of all programs."),
+        level_note="Trusts engine/wire.cc as encoder/decoder; generator is sound w.r.t. documented API preconditions (valid UTF-8/paths/names, nesting within limits, mandatory fields set, no reuse of a message after abandon_container).",
+        rule=("case = construction program decoded from fuzzer input (constructor, setter sequence, body value trees, per-value append API). Non-trivial = body contains a container, or >=2 top-level values, "
+              "or >=3 header fields; distinct = FNV-1a of the marshalled bytes."),
+        phases=[P(kind="fuzz", bin="c02_build", runs_quick=48000, runs_thorough=8000000, workers_quick=8, workers_thorough=16, max_len=4096, rss=6000, timeout=60)],
+        floor_quick=4000, floor_thorough=300000,
+    ),
+    "C11": P(
+        title="framing independent of chunking",
+        level="exploration",
+        technique="metamorphic property-based testing (any partition of a stream == the unsplit stream) on the message loader, cross-checked against an independent stream decoder; libFuzzer-generated streams and cut points",
+        level_text=("Exploration: streams of 1-6 generated valid messages of varied sizes/byte orders, optionally followed by a corrupted message and further bytes, are fed to two loaders - whole and "
+                    "under a generated partition (1-byte, message boundaries, inside fixed headers, fixed step, random cuts; with or without honouring the loader's read-size hint). Popped frames, "
+                    "their bytes and the corruption flag must be identical and equal the independent decoding. Samples the space of (stream, partition) pairs."),
+        level_note="Loader level only in this check (DBusMessageLoader via libdbus-internal); the handshake-to-message boundary of the socket transport is exercised by the in-process bus targets. Trusts engine/wire.cc.",
+        rule=("case = (stream, ordered cut points) decoded from fuzzer input. Non-trivial = >=2 messages and >=1 cut strictly inside a message; distinct = FNV-1a of stream bytes + cut list."),
+        phases=[P(kind="fuzz", bin="c11_chunk", runs_quick=40000, runs_thorough=6000000, workers_quick=8, workers_thorough=16, max_len=4096, rss=6000, timeout=60)],
+        floor_quick=3000, floor_thorough=100000,
+    ),
+    "C12": P(
+        title="header edits keep a message valid",
+        level="exploration",
+        technique="stateful property-based testing: generated edit sequences on built and received messages against a field-list model, each step validated by an independent decoder",
+        level_text=("Exploration: generated sequences of 1-12 header edits (set / replace with values of length 3..255 / delete for destination, sender, path, interface, member, error name, container "
+                    "instance; reply serial; strip unknown fields; flag toggles) on locally built messages and on messages demarshalled from independent encodings with arbitrary field order, unknown "
+                    "fields and either byte order. After every edit the marshalled form must be well-formed (fully valid when mandatory fields are present), decoded fields must equal the model, and "
+                    "type, serial, flags, signature and body must be unchanged; accessors are compared as well."),
+        level_note="Trusts engine/wire.cc; the model demands only what the property states (edited field reads back as set, other fields keep value and relative order).",
+        rule=("case = initial message + edit sequence decoded from fuzzer input. Non-trivial = >=2 edits of which one changes the length of, or deletes, a field that is not last (or strips >=1 unknown field); "
+              "distinct = FNV-1a of initial message description + edit list."),
+        phases=[P(kind="fuzz", bin="c12_hdredit", runs_quick=80000, runs_thorough=10000000, workers_quick=8, workers_thorough=16, max_len=4096, rss=6000, timeout=60)],
+        floor_quick=5000, floor_thorough=200000,
+    ),
     "C16": P(
         title="grammar predicates",
         level="exploration",
